@@ -46,21 +46,37 @@ class Gen:
         return '\n'.join(self.lines) + '\n'
 
 
-def splice_loops(body, loops, key):
-    """insert loop contracts after the n-th `loop` / `while` keyword header."""
+def loop_contract_lines(spec, rowprefix):
+    """-> list of (text, row or None)"""
+    out = []
+    for kw in ('invariant_except_break', 'invariant', 'ensures'):
+        if kw in spec:
+            out.append(('        ' + kw, None))
+            for (cid, txt) in spec[kw]:
+                out.append(('            %s,' % txt, '%s.%s' % (rowprefix, cid)))
+    if 'decreases' in spec:
+        out.append(('        decreases ' + spec['decreases'], None))
+    return out
+
+
+def splice_loops(body, loops, key, rowprefix):
+    """insert loop contracts after the n-th `loop` / `while` header. Returns list of (line, row-or-None)."""
     if not loops:
-        return body
-    out, pos, n = '', 0, 0
+        return [(l, None) for l in body.split('\n')]
+    out, pos, n = [], 0, 0
     for m in re.finditer(r'\b(loop|while\b[^{]*)\s*\{', body):
         if n in loops:
             hdr_end = m.end() - 1
-            out += body[pos:hdr_end].rstrip() + '\n' + loops[n] + '\n{'
+            out += [(l, None) for l in body[pos:hdr_end].rstrip().split('\n')]
+            out += loop_contract_lines(loops[n], rowprefix)
+            out.append(('{', None))
             pos = m.end()
         n += 1
     for k in loops:
         if k >= n:
             raise Unsupported('%s: loop #%d not found (loop structure changed)' % (key, k))
-    return out + body[pos:]
+    out += [(l, None) for l in body[pos:].split('\n')]
+    return out
 
 
 def emit_fn(g, key, fx, contract, rowprefix):
@@ -87,12 +103,12 @@ def emit_fn(g, key, fx, contract, rowprefix):
     g.emit('    {')
     if contract.get('prologue'):
         g.emit('        ' + contract['prologue'] + '   // ghost prologue (rule X-link)')
-    body = splice_loops(fx['body'], contract.get('loops'), key)
     brow = '%s.body' % rowprefix
+    body_lines = splice_loops(fx['body'], contract.get('loops'), key, rowprefix)
     g.rows[brow] = dict(serves=contract.get('body_serves', []), kind='verus', fn=key,
                         text='callee preconditions, assertions (incl. debug_assert!), arithmetic and termination inside the extracted body')
-    for l in body.split('\n'):
-        g.emit('    ' + l, row=brow)
+    for (l, lrow) in body_lines:
+        g.emit('    ' + l, row=(lrow or brow))
     g.emit('    }')
     for (hn, arg, hb) in fx.get('hoisted', []):
         # hoisted nested fn (X-nested): inherits the obligations of its single call site
@@ -168,30 +184,34 @@ def generate(repo, table, lemma_files=None, with_lemmas=True):
 
 
 def emit_unwind_variants(g, fx, contract, rec):
-    """X-unwind: statements up to the call that runs user code, the call replaced by its *_prefix shim,
-    then the Drop bodies of the guards in scope, then return."""
+    """X-unwind: for every call that can run user code the function text is emitted again with that ONE call
+    replaced by `<call>_prefix(..)` (an arbitrary prefix of its effects), followed by the Drop bodies of the guards in
+    scope at the call, `begin_unwind()` and an exit.  Everything else of the body is kept verbatim."""
     body = fx['body']
-    # variant 1: panic inside trace_value
-    m = re.search(r'\{?\s*self\.trace_value\((\w+)\)\s*\}?', body)
-    if not m or '/*@guard-forgotten@*/' not in body:
-        raise Unsupported('mark_one: trace_value call / guard shape changed')
-    pre = body[:m.start()]
-    # cut back to the enclosing `if let Some(gc_ptr) = next_gray {`
-    v1 = pre + 'self.trace_value_prefix(%s);\n        %s\n        return;\n    }\n' % (m.group(1), fx['guard_drop'])
-    # variant 2: panic inside trace_root
-    m2 = re.search(r'self\.trace_root\(\);', body)
-    if not m2:
-        raise Unsupported('mark_one: root.trace call not found')
-    # keep the queue-pop prefix and the if-chain head, replace the gray branch by unreachable
-    i_else = body.index('else if self.root_needs_trace')
-    head_end = body.index('if let Some(gc_ptr) = next_gray')
-    v2 = body[:head_end] + 'if next_gray.is_none() && self.root_needs_trace {\n        self.trace_root_prefix();\n        return;\n    }\n'
-    for (name, txt, cid) in (('mark_one__unwind_at_trace_value', v1, 'trace_value'), ('mark_one__unwind_at_trace_root', v2, 'trace_root')):
+    rt = re.search(r'->\s*\(r:\s*(.+)\)\s*$', fx['sig'])
+    rt = rt.group(1) if rt else '()'
+    ic, ifg = body.find('/*@guard-created@*/'), body.find('/*@guard-forgotten@*/')
+    variants = []
+    for (cid, pat, prefix) in (('trace_value', r'self\.trace_value\((\w+)\)', 'self.trace_value_prefix(%s)'),
+                               ('trace_root', r'self\.trace_root\(\)', 'self.trace_root_prefix()')):
+        ms = list(re.finditer(pat, body))
+        if len(ms) != 1:
+            raise Unsupported('mark_one: expected exactly one call matching %s, found %d' % (pat, len(ms)))
+        m = ms[0]
+        in_guard = ic >= 0 and ic < m.start() < ifg
+        call = prefix % m.groups() if m.groups() else prefix
+        guards = (fx['guard_drop'] + ' ') if in_guard else ''
+        rep = '{ %s; %sself.begin_unwind(); return unwound::<%s>(); }' % (call, guards, rt)
+        txt = body[:m.start()] + rep + body[m.end():]
+        # a trailing `;` / enclosing block of the original call statement is harmless
+        variants.append((cid, txt, in_guard))
+    for (cid, txt, in_guard) in variants:
         c = contract[cid]
+        name = 'mark_one__unwind_at_' + cid
         row = 'V.context.mark_one.unwind_%s' % cid
         g.rows[row] = dict(serves=c['serves'], kind='verus', fn='context.mark_one', text=c['ensures'])
-        g.emit('    // ---- generated by rule X-unwind from the extracted mark_one')
-        g.emit('    fn %s(&mut self)' % name)
+        g.emit('    // ---- generated by rule X-unwind from the extracted mark_one (guards in scope at the call: %s)' % ('DropGuard' if in_guard else 'none'))
+        g.emit('    ' + fx['sig'].replace('fn mark_one(', 'fn %s(' % name))
         g.emit('        requires')
         for r in c['requires']:
             g.emit('            %s,' % r)
